@@ -244,12 +244,15 @@ fn replay_kats(v: &Value) -> Result<(), String> {
 #[allow(dead_code)]
 fn _unused(_: Pt<refmodel::fld::Fq>) {}
 
+crate::long_sub!(run_long_history, [12, 13]);
+
 pub fn def() -> PropDef {
     PropDef {
         id: "C06",
         rule: "(msg, dst) x {G1, G2} x {hash_to_curve, encode_to_curve} x {XMD-SHA-256, XMD-SHA-512, XOF-SHAKE128, XOF-SHAKE256}; messages of length 0, 1, around every hash block boundary, occasionally long; tags of 0..255 bytes. Oracle: the model pipeline hash_to_field -> SSWU -> isogeny -> add -> [h_eff] written from RFC 9380 (exact affine equality), model subgroup test, second call identical; plus the four RFC 9380 appendix-J known answers compared directly with the crate. Non-trivial = every case (all inputs are distinct hashes); distinct = distinct (group, mode, expander, msg, dst)",
         needs_pairing: false,
         subs: vec![
+            Box::new(crate::engine::EnumSub { name: "long-history", rule: super::longhist::RULE, run: run_long_history, replay: super::longhist::replay, exhaustive: false }),
             Box::new(EnumSub { name: "rfc-vectors", rule: "RFC 9380 J.9.1 (msg \"\" and abc), J.9.2 (msg \"\"), J.10.1 (msg \"\") through the crate (enumerated)", run: run_kats, replay: replay_kats, exhaustive: true }),
             Box::new(Sub { name: "g1", rule: "G1 suites vs model pipeline", quick: 3_600, thorough: 40_000, strategy: || boxed(h2c_strategy(0)), check: check_h2c }),
             Box::new(Sub { name: "g2", rule: "G2 suites vs model pipeline", quick: 1_500, thorough: 15_000, strategy: || boxed(h2c_strategy(1)), check: check_h2c }),
